@@ -133,6 +133,16 @@ pub fn run(args: &[String]) -> i32 {
             handle.join().unwrap();
             0
         }
+        Some("regions") => {
+            let n: usize = args.get(1).and_then(|s| s.parse().ok()).unwrap_or(20);
+            let mut seed: u64 = args.get(2).and_then(|s| s.parse().ok()).unwrap_or(1);
+            for _ in 0..n {
+                let data: Vec<u32> = (0..160).map(|_| lcg(&mut seed)).collect();
+                let mut t = Tape::new(&data);
+                println!("-----\n{}", crate::props::c13::gen_regions_compact_text(&mut t));
+            }
+            0
+        }
         Some("textgen") => {
             let n: usize = args.get(1).and_then(|s| s.parse().ok()).unwrap_or(100);
             let mut seed: u64 = args.get(2).and_then(|s| s.parse().ok()).unwrap_or(1);
